@@ -54,3 +54,6 @@ template <> struct param< ::metal::uint3, void> {
 #define constant const
 #define threadgroup static
 #define thread
+#ifndef restrict
+#define restrict __restrict__   // OpenCL C / MSL spelling of @restrict
+#endif
